@@ -68,6 +68,13 @@ int32_t  t_copy_n(uint32_t n)                          { std::vector<int32_t> a(
 struct Pt { float x; float y; };
 int32_t  t_struct(int32_t a, int32_t b)                { Pt p{static_cast<float>(a % 100), static_cast<float>(b % 100)}; Pt q = p; q.x += 1.0f; p.y = q.x; return static_cast<int32_t>(p.x) * 1000 + static_cast<int32_t>(p.y) * 10 + (q.y == static_cast<float>(b % 100) ? 1 : 0); }
 int32_t  t_ptr_walk(uint32_t n)                        { std::vector<int32_t> v(5, 0); int32_t* p = v.data(); for (uint32_t i = 0; i < 5; i++) { *p = static_cast<int32_t>(i * (n % 3)); p++; } const int32_t* q = v.data() + 2; return q[0] * 100 + q[1] * 10 + *(q - 1); }
+int32_t  t_floor(float x)                              { return static_cast<int32_t>(std::floor(x)) * 10 + static_cast<int32_t>(std::ceil(x)); }
+int32_t  t_round(float x)                              { return static_cast<int32_t>(std::round(x)) * 100 + static_cast<int32_t>(std::trunc(x)) * 10 + static_cast<int32_t>(std::lround(x)); }
+int32_t  t_fabs_minmax(float x, float y)               { return static_cast<int32_t>(4 * (std::fabs(x) + std::min(x, y) - std::max(x, y) * 2)); }
+int32_t  t_int_div_then_float(int32_t a, int32_t b)    { float r = (a % 1000) / ((b % 7) + 8); float q = static_cast<float>(a % 1000) / 8.0f; return static_cast<int32_t>(r) * 1000 + static_cast<int32_t>(q * 8.0f); }
+int32_t  t_unsigned_minus_float(uint32_t n)            { float f = (n % 100) - 1.0f; uint32_t m = (n % 100) - 1; return static_cast<int32_t>(f) * 2 + (m > 1000 ? 1 : 0); }
+int32_t  t_float_cmp(float x, float y)                 { return (x < y) + 2 * (x <= y) + 4 * (x == y) + 8 * (x != y) + 16 * (!(x > y)); }
+int32_t  t_clamp(float q)                              { float v = std::min(std::max(0.0f, (q - (-6.0f)) / 0.5f), 24.0f - 1.0f); return static_cast<int32_t>(v * 2); }
 uint32_t t_size_arith(uint32_t n)                      { std::vector<int32_t> v(n % 6, 1); return static_cast<uint32_t>(v.size() / 2 + v.size() % 2) * 10 + (v.empty() ? 1 : 0); }
 }
 '''
@@ -93,6 +100,9 @@ SIGS = {
     't_break_continue': ('i32', [('n', 'u32')]), 't_early_return': ('i32', [('a', 'i32s'), ('b', 'i32s')]), 't_comma_for': ('u32', [('n', 'u32')]),
     't_mixed_chain': ('i64', [('a', 'i32'), ('b', 'u16'), ('c', 'i64')]),
     't_vector': ('i32', [('a', 'i32'), ('i', 'u32')]), 't_vector_fill': ('i32', [('n', 'u32')]), 't_copy_n': ('i32', [('n', 'u32')]),
+    't_floor': ('i32', [('x', 'f32')]), 't_round': ('i32', [('x', 'f32h')]), 't_fabs_minmax': ('i32', [('x', 'f32h'), ('y', 'f32h')]),
+    't_int_div_then_float': ('i32', [('a', 'i32'), ('b', 'i32')]), 't_unsigned_minus_float': ('i32', [('n', 'u32')]), 't_float_cmp': ('i32', [('x', 'f32h'), ('y', 'f32h')]),
+    't_clamp': ('i32', [('q', 'f32h')]),
     't_struct': ('i32', [('a', 'i32'), ('b', 'i32')]), 't_ptr_walk': ('i32', [('n', 'u32')]), 't_size_arith': ('u32', [('n', 'u32')]),
 }
 CT = {'i8': 'int8_t', 'u8': 'uint8_t', 'u16': 'uint16_t', 'i32': 'int32_t', 'u32': 'uint32_t', 'i64': 'int64_t', 'u64': 'uint64_t', 'f32': 'float'}
@@ -104,12 +114,13 @@ def samples(kind, rnd):
             'i32s': [0, 1, -1, 5, 6, -6, 1000, -1000], 'u32': [0, 1, 2, 3, 255, 256, 2 ** 31, 2 ** 32 - 1, 12345], 'u32s': [0, 1, 2047, 2048, 2049, 100000],
             'i64': [0, 1, -1, -2, -5, 5, 2 ** 40, -2 ** 40, 2 ** 63 - 1, -2 ** 63], 'i64small': [0, 1, -1, -2, -5, 5, 1000, -1000],
             'u64nz': [1, 2, 3, 5, 6, 8, 1000, 2 ** 63, 2 ** 64 - 1], 'u64small': [1, 2, 3, 5, 6, 8, 9, 1000],
+            'f32h': [0.0, 0.5, -0.5, 1.0, -1.0, 1.5, -1.5, 2.5, -2.5, 3.25, -3.25, 7.75, -100.5, 100.5, -6.0, 5.5, 6.0],
             'f32': [0.0, 0.5, -0.5, 1.0, -1.0, 1.5, -1.5, 2.999, -2.999, 123456.75, -123456.75, 0.999999, -0.000001]}[kind]
     return edge
 
 
 def base(kind):
-    return {'i32s': 'i32', 'u32s': 'u32', 'i64small': 'i64', 'u64nz': 'u64', 'u64small': 'u64'}.get(kind, kind)
+    return {'i32s': 'i32', 'u32s': 'u32', 'i64small': 'i64', 'u64nz': 'u64', 'u64small': 'u64', 'f32h': 'f32'}.get(kind, kind)
 
 
 def main():
